@@ -993,6 +993,12 @@ class Folder:
         if name in ("fractions.Fraction", "Fraction", "frac"):
             vals = [self.fold(a) for a in args]
             return Fraction(*vals)
+        if name in ("dict.fromkeys", "collections.OrderedDict.fromkeys") and len(args) in (1, 2):
+            fill_ = self.fold(args[1]) if len(args) == 2 else None
+            d0: Dict[Any, Any] = {}
+            for k_ in self.fold(args[0]):
+                d0.setdefault(k_, fill_)
+            return d0
         if name == "dict" and len(args) <= 1 and name not in self.env:
             d_: Dict[Any, Any] = {}
             if args:
@@ -1187,10 +1193,29 @@ class Folder:
                             r_ = self.repo.resolve_expr(self.mod, node_, self.cls) if self.repo is not None and self.mod is not None else None
                         except Exception:
                             r_ = None
-                        if not isinstance(r_, ClassInfo):
+                        if isinstance(r_, External) and r_.dotted.split(".")[0] in ("pathlib", "os") and r_.dotted.split(".")[-1] in ("Path", "PurePath", "PurePosixPath", "PosixPath", "PathLike"):
+                            pass  # a plain value (a string, a list, ...) is not a path object
+                        elif not isinstance(r_, ClassInfo):
                             known = False
                 if known:
                     return res_
+            import pathlib as _pl
+
+            if isinstance(v, _pl.PurePath):
+                # a syntactic path: an instance of the pathlib classes, of no builtin container / string class, of no class of the repository
+                res_p = False
+                for k_, node_ in zip(kn, class_exprs + class_exprs[-1:] * (len(kn) - len(class_exprs))):
+                    if k_ in pyk:
+                        continue
+                    try:
+                        r_ = self.repo.resolve_expr(self.mod, node_, self.cls) if self.repo is not None and self.mod is not None else None
+                    except Exception:
+                        r_ = None
+                    if isinstance(r_, External) and r_.dotted.split(".")[-1] in ("Path", "PurePath", "PurePosixPath", "PosixPath", "PathLike"):
+                        res_p = True
+                    elif not isinstance(r_, ClassInfo):
+                        raise Unfoldable(unparse(e))
+                return res_p
             if isinstance(v, Abstract) and isinstance(getattr(v, "_isa_", None), (set, frozenset)):
                 return any((k or "?").split(".")[-1] in v._isa_ for k in kn)
             if type(v).__name__ == "AObj" and self.repo is not None:
